@@ -685,6 +685,11 @@ def judge_cli(ctx, idx, op, impl, mi, ms, reason):
                 f.append(Finding("property", idx, "a response future is pending and the reader never stopped although the peer closed / sent something undecodable", expected="err or answer", observed=",".join(res), name="C12_stopped"))
         elif rv == "err":
             ctx.count("future_err")
+    if "complete" in lab:
+        # the stream ended inside an answer: what had not arrived completely was not sent, and no future may hold it
+        ngot = sum(1 for rv in res if rv.startswith("got:"))
+        if ngot > int(lab["complete"]):
+            f.append(Finding("property", idx, "%d futures hold an answer although only %s answers had arrived completely when the stream ended: a message the peer did not (completely) send was delivered" % (ngot, lab["complete"]), expected="at most %s answers" % lab["complete"], observed=",".join(res), name="C11_safety"))
     if lab.get("expect") == "good":
         # one of the requests could not be encoded (its send failed); every other request was answered
         sent = [rv for rv in res if rv != "none"]
@@ -901,8 +906,12 @@ def judge_c16(ctx, idx, op, impl, mi, ms, reason):
 def judge_c17(ctx, idx, op, impl, mi, ms, reason):
     f = same(ctx, idx, op, impl, mi, "Impl.ofFixed/Value.enc <-> <type>::decode_from/value()/encode_to")
     ctx.count(op[0] + "_" + (op[1] if len(op) > 1 else ""))
-    if op[0] == "sweep":
+    if op[0] in ("sweep", "psweep"):
         ctx.count("values_swept", int(op[3]))
+    if f and op[0] == "psweep":
+        f[0].kind = "property"
+        f[0].name = "C17_" + op[1]
+        f[0].msg = "%s: values decoded and re-encoded by %s threads at the same moment do not all mean what their octets say (checksums per block differ from the single-threaded ones)" % (op[1], op[5])
     if f and op[0] == "fx":
         f[0].kind = "property"
         f[0].name = "C17_" + op[1]
@@ -1013,7 +1022,7 @@ PROPS = {
     "C06": dict(family="c06", judge=judge_c06, probes=("sdec", "senc"), title="Stream framing is independent of how bytes are segmented"),
     "C07": dict(family="c07", judge=judge_c07, probes=("sdec", "sdecmany"), expect_keys=["L_gt1MiB_err", "L_inrange_err", "L_inrange_ok", "L_lt20_err"], title="Hostile frame lengths on a stream are refused cheaply and safely"),
     "C08": dict(family="c08", judge=judge_c08, probes=("serve", "lsn", "lsnpipe", "servemany"), expect_keys=["serve_good", "serve_herr", "serve_unencodable", "serve_malformed_kind0", "serve_malformed_kind1", "serve_malformed_kind2", "serve_malformed_kind3"], title="Server answers each request exactly once, in order, unmodified"),
-    "C09": dict(family="c09", judge=judge_c08, probes=("serve",), expect_keys=["serve_readcut", "serve_writecut"], title="Server survives connection loss at any byte offset"),
+    "C09": dict(family="c09", judge=judge_c08, probes=("serve", "lsn"), expect_keys=["serve_readcut", "serve_writecut"], title="Server survives connection loss at any byte offset"),
     "C10": dict(family="c10", judge=judge_c10, probes=("lsn",), title="One misbehaving connection cannot disturb the others"),
     "C13": dict(family="c13", judge=judge_c13, probes=("tls", "tlsq", "tlsrude"), title="TLS settings are honoured exactly"),
     "C11": dict(family="c11", judge=judge_cli, probes=("cli", "ctcp", "clim"), model_input=cli_model_input, title="Client delivers each answer to the request it belongs to"),
@@ -1021,6 +1030,6 @@ PROPS = {
     "C14": dict(family="c14", judge=judge_c14, probes=("dget", "dbyname", "dapp", "dcmd"), title="Dictionary lookups reflect exactly what was loaded, latest wins"),
     "C15": dict(family="c15", extra=shipped_defs, judge=judge_c15, probes=("dec", "dget", "dbyname", "rt"), title="AVPs are typed by their exact dictionary entry or rejected"),
     "C16": dict(family="c16", extra=shipped_defs, judge=judge_c16, probes=("add_by_name", "avp_name", "enc", "dump", "len"), title="Building an AVP by name follows the dictionary; failure changes nothing"),
-    "C17": dict(family="c17", judge=judge_c17, probes=("fx", "sweep"), title="Four-octet data types are exact bijections"),
+    "C17": dict(family="c17", judge=judge_c17, probes=("fx", "sweep", "psweep"), title="Four-octet data types are exact bijections"),
     "C18": dict(family="c18", judge=judge_c18, probes=("dump", "get", "acc"), title="AVP lookup and typed accessors agree with the message content"),
 }
